@@ -432,10 +432,11 @@ func c09RunJobsWD(jobs []c08Job, workers int, watchdog time.Duration) []c08Res {
 								continue wait
 							}
 							if !ok {
-								// child died on this job
-								time.Sleep(5 * time.Millisecond)
+								// child died on this job: reap it first, so that its stderr (the runtime's fatal
+								// error headline) has been copied completely before it is classified
+								_ = ch.in.Close()
+								_ = ch.cmd.Wait()
 								tail := ch.errb.String()
-								ch.kill()
 								ch = nil
 								atomic.AddInt64(&c09Stats.crashes, 1)
 								oc := "crash"
@@ -499,21 +500,55 @@ func c09Violation(j *c08Job, r *c08Res) (class, what string) {
 		return "", ""
 	}
 	tname := c08Targets[j.Target].Name
+	// a time class names the input class and the loop it drives, not the entry point it was observed through
+	timeClass := "c09-time-" + tname
+	switch c08Targets[j.Target].Family {
+	case "j2k":
+		if l := c09J2KLayers(j.Data); l >= 256 {
+			timeClass = "c09-time-j2k-declared-layers" // t2.PacketDecoder.decodeLRCP/RLCP/RPCL/PCRL/CPRL iterate all declared layers
+		}
+	case "jpeg":
+		if n := c09CountSOF(j.Data); n >= 2 {
+			timeClass = "c09-time-jpeg-repeated-sof" // lossless14sv1.parseSOF3 / baseline.parseSOF allocate per SOF segment
+		}
+	}
 	switch r.Outcome {
 	case "timeout":
-		return "c09-time-" + tname, fmt.Sprintf("decode did not return within %d s", c09WatchdogSec)
+		return timeClass, fmt.Sprintf("decode did not return within %d s", c09WatchdogSec)
 	case "crash-oom":
 		return "c09-oom-" + tname, "fatal out-of-memory abort of the decoding process (RLIMIT_AS kill switch): " + r.Text
 	case "crash":
 		return "c09-crash-" + tname, "decoding process died: " + r.Text
 	}
 	if r.Ns > int64(c09WatchdogSec)*1e9 {
-		return "c09-time-" + tname, fmt.Sprintf("decode took %.1f s", float64(r.Ns)/1e9)
+		return timeClass, fmt.Sprintf("decode took %.1f s", float64(r.Ns)/1e9)
 	}
 	if r.Peak > c09Budget(j.S) {
 		return "c09-mem-" + tname, fmt.Sprintf("sampled peak heap %d bytes > budget %d (S=%d)", r.Peak, c09Budget(j.S), j.S)
 	}
 	return "", ""
+}
+
+// c09J2KLayers: number of quality layers declared by the first COD segment (independent scan), -1 if none
+func c09J2KLayers(b []byte) int {
+	for _, sg := range c08ScanJ2K(b).Segs {
+		if sg.Marker == 0x52 && sg.Off+7 < len(b) {
+			return int(b[sg.Off+6])<<8 | int(b[sg.Off+7])
+		}
+	}
+	return -1
+}
+
+// c09CountSOF: number of frame-header segments in front of the first scan
+func c09CountSOF(b []byte) int {
+	n := 0
+	for _, sg := range c08ScanJPEG(b).Segs {
+		m := sg.Marker
+		if (m >= 0xC0 && m <= 0xCF && m != 0xC4 && m != 0xC8 && m != 0xCC) || m == 0xF7 {
+			n++
+		}
+	}
+	return n
 }
 
 func c09Main(c *hx.Ctx) {
@@ -522,7 +557,7 @@ func c09Main(c *hx.Ctx) {
 		"(SOF/SIZ; FrameInfo for RLE) declares S ≤ 2^22 or nothing; non-trivial = the input is not a bare corpus stream " +
 		"(it is a mutation) and the decoder got past the start-of-image check (outcome ok, or an error/panic after at least 4 bytes)"
 	jobs := c08BuildJobs(c)
-	res := c09Pass(c, jobs, 4)
+	res := c09Pass(c, jobs, 2)
 	// second stage: exact peak sampling for the jobs whose allocation volume exceeds the budget
 	var again []int
 	for i := range jobs {
